@@ -590,6 +590,44 @@ def gen_roles_history(rng, p, nsteps):
     return steps, {'mode': 'roles'}
 
 
+def gen_role_swap_bu_program(rng):
+    """Directed family for C20 (bottom-up): a dependency pair GEN <- USE swaps the writer role of a product between two states. In
+    state A GEN writes it and USE requires GEN and reads it; in state B GEN writes nothing and USE writes it itself, without
+    requiring GEN.  A bottom-up build told about the switch schedules both; as long as the recorded (by then stale) require keeps
+    GEN before USE in the dependency order, GEN runs first and drops its write, and nothing aborts -- in either direction, and
+    however the tasks became known (GEN first, then USE, then tasks that start requiring USE later, which re-arranges the order)."""
+    p = Prog(); p.kind = 'roles'; p.exact_only = True
+    p.sources = [0, 1]
+    g = 10
+    GEN, USE = 1, 2
+    tid = 3
+    p.tasks[GEN] = ('R', 0, 0, ('I', ('l', 1), ('W', g, 0, ('k', 5), ('T', ('a',))), ('T', ('a',))))
+    p.tasks[USE] = ('R', 0, 0, ('I', ('l', 1), ('Q', GEN, 0, ('R', g, 0, ('T', ('a',)))), ('W', g, 0, ('k', 6), ('T', ('a',)))))
+    # later tasks that start requiring USE (directly or through each other) only when source 1 says so
+    packs = []
+    for i in range(rng.randint(1, 3)):
+        t = tid; tid += 1
+        target = USE if (not packs or rng.random() < 0.5) else rng.choice(packs)
+        p.tasks[t] = ('R', 1, 0, ('I', ('l', 2), ('Q', target, 0, ('T', ('a',))), ('T', ('a',))))
+        packs.append(t)
+    p.tasks[0] = ('R', 1, 0, ('T', ('a',)))
+    p.generated = {g: (None, 0)}
+    steps = [['E', '0', '0'], ['E', '1', '0']]
+    first = [GEN, USE] if rng.random() < 0.8 else [USE]
+    for t in first + packs:
+        steps.append(['S', '1', 'q', str(t)])
+    if rng.random() < 0.5:            # a first round trip of the switch before anything requires USE from above
+        steps += [['E', '0', '1'], ['S', '1', 'b', '1', '0'], ['E', '0', '0'], ['S', '1', 'b', '1', '0'] if rng.random() < 0.5 else ['S', '1', 'q', str(USE)]]
+    steps += [['E', '1', '1'], ['S', '1', 'b', '1', '1'] if rng.random() < 0.7 else ['S', str(len(packs))] + sum((['q', str(t)] for t in packs), [])]
+    for _ in range(rng.randint(1, 3)):
+        cur = steps  # flip the switch and report it bottom-up
+        last = [st for st in steps if st[0] == 'E' and st[1] == '0'][-1][2]
+        steps.append(['E', '0', '1' if last == '0' else '0'])
+        steps.append(['S', '1', 'b', '1', '0'])
+    steps.append(['S', str(len(p.tasks))] + sum((['q', str(t)] for t in sorted(p.tasks)), []))
+    return p, steps
+
+
 def gen_multi_program(rng):
     """one task requires the same task twice with different output checkers (recorded finding for C08)"""
     p = Prog()
